@@ -146,6 +146,48 @@ func conflictsWith(T string, used [][]string, p []string) bool {
 	return false
 }
 
+// another legal spelling of a resolved path: every embedded field on the way is named or left out at random
+// (a field promoted through several levels can be reached through any subset of the embedded names)
+func respell(te string, full []string, r *lib.Rng) []string {
+	var out []string
+	te0 := te
+	for i := 0; i < len(full); i++ {
+		f := full[i]
+		switch {
+		case strings.HasPrefix(te, "map[string]"):
+			out = append(out, f)
+			te = te[len("map[string]"):]
+			continue
+		case strings.HasPrefix(te, "map[int]"):
+			out = append(out, f)
+			te = te[len("map[int]"):]
+			continue
+		}
+		st, ok := structTypes[strings.TrimPrefix(te, "*")]
+		if !ok {
+			return append(out, full[i:]...)
+		}
+		sf, ok := st.FieldByName(f)
+		if !ok {
+			return append(out, full[i:]...)
+		}
+		te = typeExpr(sf.Type)
+		// an embedded field followed by a field of the embedded struct may be left out
+		if sf.Anonymous && i+1 < len(full) && r.Chance(1, 2) {
+			if est, ok := structTypes[strings.TrimPrefix(te, "*")]; ok {
+				if _, ok := est.FieldByName(full[i+1]); ok {
+					continue
+				}
+			}
+		}
+		out = append(out, f)
+	}
+	if !reflect.DeepEqual(expandPath(te0, out), full) {
+		return full // (a shorter spelling that resolves to something else: shadowed name)
+	}
+	return out
+}
+
 // static type of the slot at the end of a path through te ("" if it cannot be walked; "any" below an interface)
 func staticTypeAt(te string, p []string) string {
 	for _, f := range p {
@@ -588,11 +630,11 @@ func (g *gen) retypedCase() *Case {
 var srcTypeW = []string{"Outer", "Outer", "Outer", "*Outer", "*Outer", "Inner", "*Inner", "Leaf", "*Leaf",
 	"map[string]any", "map[string]any", "map[string]Inner", "map[string]*Inner", "map[string]Leaf",
 	"map[string]int", "map[string]string", "int", "string", "map[string]map[string]any", "any",
-	"Emb", "Emb", "*Emb", "map[string]Emb"}
+	"Emb", "Emb", "*Emb", "map[string]Emb", "Emb2"}
 var tgtTypeW = []string{"Outer", "Outer", "Outer", "*Outer", "*Outer", "Inner", "*Inner", "Leaf", "*Leaf",
 	"map[string]any", "map[string]any", "any", "map[string]Inner", "map[string]Inner", "map[string]*Inner",
 	"map[string]Leaf", "map[string]int", "map[string]string", "map[string]map[string]any", "map[string]Outer",
-	"Emb", "Emb", "*Emb", "map[string]Emb", "map[string]*Emb"}
+	"Emb", "Emb", "*Emb", "map[string]Emb", "map[string]*Emb", "Emb2", "*Emb2", "map[string]Emb2"}
 
 func compat(pt, st string) bool { return st == "any" || pt == st || pt == "any" }
 
@@ -720,6 +762,8 @@ func (g *gen) decl(T string, tpaths []pinfo, n int, used *[][]string) Decl {
 	return d
 }
 
+var embTypes = []string{"Emb", "*Emb", "map[string]Emb", "map[string]*Emb", "Emb2", "Emb2", "*Emb2", "map[string]Emb2"}
+
 var overlapPatterns = []string{"equal", "prefix", "extension", "sibling-reset", "whole+field", "plain+field", "promoted-alias", "promoted-alias"}
 
 // add an overlapping target to the case; returns the pattern used
@@ -760,12 +804,45 @@ func (g *gen) addOverlap(c *Case, tpaths []pinfo) string {
 			}
 		}
 		if len(short) == 0 {
+			// an input type without embedded structs: take one that has them (the declarations made for the old
+			// type are dropped)
+			c.T = embTypes[r.Intn(len(embTypes))]
+			c.Decls = nil
+			tpaths = enumPathsP(c.T, g.depth, true, true)
+			for _, q := range tpaths {
+				if len(expandPath(c.T, q.path)) != len(q.path) {
+					short = append(short, q)
+				}
+			}
+		}
+		if len(short) == 0 {
 			return g.addOverlapExt(c, nd, ex, tpaths)
 		}
 		q := short[r.Intn(len(short))]
+		// half of the time a field promoted through several levels of embedding, where there is one
+		if r.Chance(1, 2) {
+			var deep []pinfo
+			for _, e := range short {
+				if len(expandPath(c.T, e.path)) >= len(e.path)+2 {
+					deep = append(deep, e)
+				}
+			}
+			if len(deep) > 0 {
+				q = deep[r.Intn(len(deep))]
+			}
+		}
 		full := expandPath(c.T, q.path)
 		alias := full
-		switch r.Intn(4) {
+		switch r.Intn(5) {
+		case 4:
+			// another spelling of the same slot: some of the embedded fields named, some not (with two levels of
+			// embedding X, Emb.X, Inner.X and Emb.Inner.X are one slot)
+			for try := 0; try < 6; try++ {
+				alias = respell(c.T, full, r)
+				if !reflect.DeepEqual(alias, q.path) {
+					break
+				}
+			}
 		case 0:
 			// the embedded field itself (a prefix); cut right after the first spelled-out step
 			for i := range q.path {
@@ -1144,7 +1221,7 @@ func (g *gen) addStatics(c *Case, tpaths []pinfo) string {
 func (g *gen) unitCase() *Case {
 	r := g.r
 	T := []string{"Outer", "Outer", "*Outer", "map[string]Outer", "map[string]Inner", "map[string]*Inner", "Inner", "map[string]any", "any", "map[string]map[string]any",
-		"Emb", "*Emb", "map[string]*Emb"}[r.Intn(13)]
+		"Emb", "*Emb", "map[string]*Emb", "Emb2", "*Emb2"}[r.Intn(15)]
 	alias := r.Chance(1, 3)
 	tpaths := enumPathsP(T, g.depth, true, g.promo || alias)
 	if len(tpaths) == 0 {
